@@ -115,10 +115,14 @@ fn edge_stub(src: &[u8; 16], se: &str, label: &str, dest: &[u8; 16], cdate: i64)
     Edge { src: *src, src_entity: se.to_string(), label: label.to_string(), dest: *dest, cdate, verifying_key: vec![], signature: vec![] }
 }
 
-/// the 32 bytes the real code signs for this row
+/// the 32 bytes the real code signs for this row (empty when the real code refuses or panics)
 fn digest(real: &Real, rec: &Recorder) -> Vec<u8> {
+    std::panic::catch_unwind(std::panic::AssertUnwindSafe(|| digest_inner(real, rec))).unwrap_or_default()
+}
+fn digest_inner(real: &Real, rec: &Recorder) -> Vec<u8> {
     match real {
-        Real::Node(n) => n.hash().unwrap().as_bytes().to_vec(),
+        // (a digest function that refuses the row yields no digest: reported through the comparison, never a crash)
+        Real::Node(n) => n.hash().map(|h| h.as_bytes().to_vec()).unwrap_or_default(),
         Real::Edge(e) => e.verif_hash().as_bytes().to_vec(),
         Real::NDel { room, id, mdate, entity, ddate, key } => {
             NodeDeletionEntry::sign(room, &node_stub(id, *mdate, entity), *ddate, key, rec);
@@ -345,7 +349,9 @@ fn case_pair(ctx: &mut Ctx, r1: &Row, r2: &Row, kind: &str) -> Option<Case> {
 /// the witnesses of the model's `collide_all` for this key, computed by coqc
 fn coq_witnesses(key: &[u8]) -> Result<Vec<(Row, Row)>, String> {
     let work = std::env::var("VERIF_WORK").unwrap_or("/verif/work".to_string());
-    let coqdir = PathBuf::from(&work).parent().unwrap().join("coq");
+    // the Coq development: the nearest ancestor of the work directory that holds coq/run/Run_C06.vo
+    let coqdir = PathBuf::from(&work).ancestors().map(|a| a.join("coq")).find(|c| c.join("run").join("Run_C06.vo").exists())
+        .unwrap_or(PathBuf::from("/verif/coq"));
     let dir = PathBuf::from(&work).join("C06");
     std::fs::create_dir_all(&dir).map_err(|e| e.to_string())?;
     let vfile = dir.join("witnesses.v");
@@ -437,6 +443,14 @@ async fn main() {
     // class 4: a reference that sign() accepts and verify() refuses (fields <= 1024 < fields + signature)
     let big = |n: usize| Row { kind: 1, f: vec![V::B(uid_a()), V::B(vec![b'e'; n / 2]), V::B(vec![b'l'; n - n / 2]), V::B(uid_a()), V::I(1), kb()] };
     for n in [887usize, 888, 950, 951, 952] { cases.extend(case_row(&mut ctx, &big(n), "K4-reference-size-window")); }
+
+    // what is signed is the STORED json text: a text that merely parses to the same value (spaces, escapes,
+    // reordered or duplicate keys) must not verify under the signature of the canonical text
+    { let canon = "{\"a\":1,\"b\":\"x\"}";
+      let variants = ["{ \"a\" : 1, \"b\" : \"x\" }", "{\"a\":1,\"b\":\"\\u0078\"}", "{\"b\":\"x\",\"a\":1}", "{\"a\":0,\"a\":1,\"b\":\"x\"}",
+                      "{\"a\":1,\"b\":\"x\"}\n", "{\"a\":1.0,\"b\":\"x\"}", "{\"\\u0061\":1,\"b\":\"x\"}"];
+      let row = |t: &str| Row { kind: 0, f: vec![V::B(uid_a()), V::N, V::I(5), V::I(7), V::B(b"ns.E".to_vec()), V::B(t.as_bytes().to_vec()), V::N, kb()] };
+      for v in variants { cases.extend(case_pair(&mut ctx, &row(canon), &row(v), "json-noncanonical")); cases.extend(case_pair(&mut ctx, &row(v), &row(canon), "json-noncanonical")); } }
 
     // the whole escape table of serde_json's string quoting (the digest is defined for any text, JSON or not)
     { let mut t: Vec<u8> = (0u8..128).collect(); t.extend_from_slice("é日😀\u{80}\u{7ff}\u{800}\u{ffff}\u{10000}".as_bytes());
